@@ -26,8 +26,8 @@ Inductive bcls := SMPose | SMTwist | SpatialVector | SpatialM6 | SpatialF6 | SMU
 Inductive pyc := C (c : cls) | B (b : bcls).
 
 Inductive op := Mul | Div | Add | Sub | Pow | MatMul | Eq | Ne | Xor | Or.
-(* method names looked up through the MRO: __op__, __rop__, and the element validator _import *)
-Inductive meth := Fwd (o : op) | Rev (o : op) | Import.
+(* method names looked up through the MRO: __op__ and __rop__ *)
+Inductive meth := Fwd (o : op) | Rev (o : op).
 
 Scheme Equality for cls.
 Scheme Equality for bcls.
@@ -107,7 +107,7 @@ Definition arr (n : nat) := single_or_list n RArray RArrayList.
 Definition bools (n : nat) := single_or_list n RBool RBoolList.
 
 (* what the element-wise helpers return before any constructor is applied *)
-Inductive raw := RawSingle | RawList | RawNone | RawRaise.
+Inductive raw := RawSingle | RawList | RawRaise.
 Inductive npop := OMatMul | OElem.
 Definition np_ok (f : npop) (a b : list nat) : bool := match f with OMatMul => matmul_ok a b | OElem => bcast a b end.
 
@@ -117,41 +117,44 @@ Variable n : nat.
 (* the operator protocol at smaller depth, for bodies that evaluate a nested expression such as [left == right] *)
 Variable rec : op -> kind -> kind -> outcome.
 
-(* SMPose._op2, super_pose.py:1329-1380.  NOTE the last [if/elif] has no [else]: falls through to None. *)
+(* SMPose._op2 (super_pose.py, after fix 5b6b922): same-class or subclass right operand / scalar / conforming array, else
+   raise ValueError('bad operands') *)
 Definition op2 (lc : cls) (r : kind) (f : npop) : raw :=
   match r with
   | Obj rc => if isinst rc (C lc)
               then (if np_ok f (eshape H lc) (eshape H rc) then (if n =? 1 then RawSingle else RawList) else RawRaise)
-              else RawNone
+              else RawRaise
   | KFloat | KInt => if n =? 1 then RawSingle else RawList
-  | KArr s => if shape_beq s (eshape H lc) then (if n =? 1 then RawSingle else RawList) else RawNone
+  | KArr s => if shape_beq s (eshape H lc) then (if n =? 1 then RawSingle else RawList) else RawRaise
   end.
-(* X(raw, check=False) for a pose class: arghandler(None) builds the identity *)
+(* X(raw, check=False) for a pose class *)
 Definition pose_ctor (c : cls) (x : raw) : outcome :=
-  match x with RawSingle | RawList => Value (RObj c) Computed | RawNone => Value (RObj c) DefaultIdentity | RawRaise => Raise end.
+  match x with RawSingle | RawList => Value (RObj c) Computed | RawRaise => Raise end.
 Definition raw_out (x : raw) : outcome :=
-  match x with RawSingle => Value RArray Computed | RawList => Value RArrayList Computed | RawNone => ReturnsNone | RawRaise => Raise end.
+  match x with RawSingle => Value RArray Computed | RawList => Value RArrayList Computed | RawRaise => Raise end.
 Definition raw_bool (x : raw) : outcome :=
-  match x with RawSingle => Value RBool Computed | RawList => Value RBoolList Computed | RawNone => ReturnsNone | RawRaise => Raise end.
+  match x with RawSingle => Value RBool Computed | RawList => Value RBoolList Computed | RawRaise => Raise end.
 
-(* SMPose.__mul__, super_pose.py:952-998 *)
+(* SMPose.__mul__ (after fixes b2b864c, 86fcbcb): pose * pose needs operands of the SAME class *)
 Definition SMPose_mul (lc : cls) (r : kind) : mres :=
   match r with
-  | Obj rc => if isinst lc (C rc)                       (* isinstance(left, right.__class__) *)
+  | Obj rc => if cls_beq lc rc                          (* type(left) == type(right) *)
               then Out (pose_ctor lc (op2 lc r OMatMul))
               else NotImpl                              (* not list/ndarray, not scalar *)
   | KArr s =>
       let N := poseN H lc in
-      if isvector s N then Out (Value RArray Computed)                              (* :958-979 *)
+      if isvector s N then Out (Value RArray Computed)                              (* one vector, one or several poses *)
       else if (n =? 1) && (isSO H lc || isSE H lc) && (hd0 s =? N) && (2 <=? length s)
-           then Out (Value RArray Computed)                                         (* :981-986 *)
-      else Out Raise   (* :987-992 evaluate left.T (AttributeError) or right.shape[1] (IndexError); :994 ValueError *)
-  | KFloat | KInt => Out (raw_out (op2 lc r OElem))                                 (* :995 *)
+           then Out (Value RArray Computed)                                         (* one pose, N x M array: every column *)
+      else if (isSO H lc || isSE H lc) && (hd0 s =? N) && (2 <=? length s) && (n =? nth 1 s 0)
+           then Out (Value RArray Computed)                                         (* M poses, N x M array: column i by pose i *)
+      else Out Raise                                                                (* ValueError('bad operands') *)
+  | KFloat | KInt => Out (raw_out (op2 lc r OElem))
   end.
-(* SMPose.__truediv__, :1085-1090 *)
+(* SMPose.__truediv__ *)
 Definition SMPose_div (lc : cls) (r : kind) : mres :=
   match r with
-  | Obj rc => if isinst lc (C rc) then Out (pose_ctor lc (op2 lc r OMatMul)) else Out Raise
+  | Obj rc => if cls_beq lc rc then Out (pose_ctor lc (op2 lc r OMatMul)) else Out Raise
   | KFloat | KInt => Out (raw_out (op2 lc r OElem))
   | KArr _ => Out Raise
   end.
@@ -159,7 +162,7 @@ Definition SMPose_div (lc : cls) (r : kind) : mres :=
 Definition SMPose_addsub (lc : cls) (r : kind) : mres := Out (raw_out (op2 lc r OElem)).
 (* unary minus applied to the result of __sub__ (SMPose.__rsub__, :1255) *)
 Definition neg_out (o : outcome) : outcome :=
-  match o with Value RArray p => Value RArray p | Value _ _ => Raise | ReturnsNone => Raise | x => x end.
+  match o with Value RArray p => Value RArray p | Value _ _ => Raise | x => x end.
 (* SMPose.__pow__, :862 *)
 Definition SMPose_pow (lc : cls) (r : kind) : mres :=
   match r with KInt => Out (Value (RObj lc) Computed) | _ => Out Raise end.
@@ -261,9 +264,9 @@ Definition Plucker_mul (lc : cls) (r : kind) : mres :=                    (* :77
   match r with Obj rc => if isinst rc (C Plucker) then Out (Value RScalar Computed) else Out Raise | _ => Out Raise end.
 Definition Plucker_rmul (sc : cls) (l : kind) : mres :=                   (* :798-804: only single-valued SE3 *)
   match l with Obj lc => if isinst lc (C SE3) && (n =? 1) then Out (Value (RObj Plucker) Computed) else Out Raise | _ => Out Raise end.
-(* :537 uses l2.vec (first element only): a single bool whatever the lengths; no other class has a 6-element .vec *)
-Definition Plucker_eq (lc : cls) (r : kind) : mres :=
-  match r with Obj rc => if isinst rc (C Plucker) then Out (Value RBool Computed) else Out Raise | _ => Out Raise end.
+(* __eq__ / __ne__ (after fix 2ec0dbf): a non-Plucker operand is a TypeError, otherwise element-wise through binop(list1=False) *)
+Definition Plucker_cmp (lc : cls) (r : kind) : mres :=
+  match r with Obj rc => if isinst rc (C Plucker) then Out (Value (bools n) Computed) else Out Raise | _ => Out Raise end.
 (* :575 isparallel uses l2.w (a 3-vector): Plucker and Twist3 have it *)
 Definition Plucker_or (lc : cls) (r : kind) : mres :=
   match r with Obj rc => if isinst rc (C Plucker) || isinst rc (C Twist3) then Out (Value RBool Computed) else Out Raise | _ => Out Raise end.
@@ -319,7 +322,7 @@ Definition DualQuaternion_addsub (o : op) (lc : cls) (r : kind) : mres :=    (* 
                                                       Quaternion + number fails its assertion *)
   | _ => Out Raise
   end.
-(* :192-203.  NOTE: no [else] -- anything that is neither a DualQuaternion nor (for a unit one) a 3-vector gives None.
+(* :192-205 (after fix f42ba75): anything that is neither a DualQuaternion nor (for a unit one) a 3-vector is a ValueError.
    The product is a UnitDualQuaternion iff BOTH operands are (fix 56d2f84; the test used to look at left twice). *)
 Definition DualQuaternion_mul (lc : cls) (r : kind) : mres :=
   match r with
@@ -332,48 +335,16 @@ Definition DualQuaternion_mul (lc : cls) (r : kind) : mres :=
         then (if isinst lc (C UnitDualQuaternion) && isinst rc (C UnitDualQuaternion) then Out (Value (RObj UnitDualQuaternion) Computed)
               else Out (Value (RObj DualQuaternion) Computed))
         else Out Raise
-      else Out ReturnsNone
-  | KArr s => if isinst lc (C UnitDualQuaternion) && isvector s 3 then Out (Value RArray Computed) else Out ReturnsNone
-  | KFloat | KInt => Out ReturnsNone
-  end.
-
-(* collections.UserList (CPython Lib/collections/__init__.py) *)
-(* what  cls(list)  does with a list whose first element is valid and which also holds elements of shape [fs]:
-   SMUserList.arghandler list path calls self._import on each; SMUserList._import returns None for an invalid element
-   and arghandler then raises ValueError (fix f16dbda; the None used to be stored), the twist / spatial-vector versions
-   raise TypeError themselves *)
-Definition ctor_list (lc : cls) (fs : list nat) (same : bool) : outcome :=
-  if shape_beq fs (eshape H lc) then Value (RObj lc) (if same then ListOp else ForeignElements)
-  else match owner lc Import with
-       | Some (B SMUserList) | Some (C Twist3) | Some (C Twist2) | Some (B SpatialVector) => Raise
-       | _ => Unmodelled
-       end.
-Definition UserList_add (lc : cls) (r : kind) : mres :=
-  match r with
-  | Obj rc => if is_seq rc then Out (ctor_list lc (eshape H rc) (cls_beq lc rc)) else Out Raise   (* list(other): not iterable *)
-  | KArr s => match s with [] => Out Raise | _ :: t => Out (ctor_list lc t false) end               (* list(ndarray): its rows *)
+      else Out Raise
+  | KArr s => if isinst lc (C UnitDualQuaternion) && isvector s 3 then Out (Value RArray Computed) else Out Raise
   | KFloat | KInt => Out Raise
   end.
-Definition UserList_radd (sc : cls) (l : kind) : mres :=
-  match l with KFloat | KInt => Out Raise | _ => Out Unmodelled end.
-(* self.__class__(self.data * n): list repetition needs an int; with an object on the right  list * obj  asks obj.__rmul__(list),
-   which every class of this library rejects, then fails as "can't multiply sequence by non-int";
-   with an ndarray NumPy multiplies (n, *eshape) by the array *)
-(* SpatialVector.__init__ given an ndarray (spatialvector.py:80-89): a 6-vector (any of (6,), (1,6), (6,1)) is stored as it is,
-   a 6xN matrix is split into its columns, anything else is refused by _import *)
-Definition SpatialVector_ctor_array (c : cls) (s : list nat) : outcome :=
-  if isvector s 6 then Value (RObj c) (if shape_beq s [6] then Computed else ForeignElements)
-  else if isvector s 3 then Unmodelled
-  else match s with [6; _] => Value (RObj c) Computed | _ => Raise end.
-Definition UserList_mul (lc : cls) (r : kind) : mres :=
-  match r with
-  | KInt => Out (Value (RObj lc) ListOp)
-  | KFloat => Out Raise
-  | Obj _ => Out Raise
-  | KArr s => if bcast (n :: eshape H lc) s
-              then (if isinst lc (B SpatialVector) then Out (SpatialVector_ctor_array lc (bshape (n :: eshape H lc) s)) else Out Unmodelled)
-              else Out Raise
-  end.
+
+(* SMUserList (smuserlist.py, after fix ff75c13): + and * are TypeErrors unless a subclass defines them -- the list
+   concatenation / repetition of collections.UserList is no longer inherited *)
+Definition SMUserList_arith (sc : cls) (other : kind) : mres := Out Raise.
+
+(* collections.UserList.__eq__ (CPython Lib/collections/__init__.py), reached through super().__eq__ *)
 (* self.data == self.__cast(other) *)
 Definition UserList_eq (lc : cls) (r : kind) : mres :=
   match r with
@@ -385,6 +356,13 @@ Definition UserList_eq (lc : cls) (r : kind) : mres :=
   | KFloat | KInt => Out (Value RBool Computed)
   | KArr s => if bcast (n :: eshape H lc) s then Out (Value RBoolArray Computed) else Out Raise
   end.
+(* SMUserList.__eq__ / __ne__ (after fix fb8fbdb): two objects of the same class are compared element by element through
+   binop(list1=False); anything else goes to super(): UserList.__eq__, and object.__ne__ (which inverts type(self).__eq__) *)
+Definition SMUserList_eq (lc : cls) (r : kind) : mres :=
+  match r with
+  | Obj rc => if cls_beq lc rc then Out (Value (bools n) Computed) else UserList_eq lc r
+  | _ => UserList_eq lc r
+  end.
 (* object.__eq__: NotImplemented for distinct objects;  object.__ne__: inverts the truth value of type(self).__eq__ *)
 Definition invert_truth (m : mres) : mres :=
   match m with
@@ -393,6 +371,12 @@ Definition invert_truth (m : mres) : mres :=
   | Out (Value RBoolArray _) => Out Raise
   | Out Raise => Out Raise
   | Out _ => Out Unmodelled
+  end.
+
+Definition SMUserList_ne (lc : cls) (r : kind) : mres :=
+  match r with
+  | Obj rc => if cls_beq lc rc then Out (Value (bools n) Computed) else invert_truth (SMUserList_eq lc r)
+  | _ => invert_truth (SMUserList_eq lc r)
   end.
 
 (* ------------------------------------------------------------------ method table *)
@@ -419,7 +403,7 @@ Definition body0 (k : pyc) (m : meth) (self : cls) (other : kind) : mres :=
   | B SMTwist, Fwd Eq | B SMTwist, Fwd Ne => SMTwist_cmp self other
   | C Plucker, Fwd Mul => Plucker_mul self other
   | C Plucker, Rev Mul => Plucker_rmul self other
-  | C Plucker, Fwd Eq => Plucker_eq self other
+  | C Plucker, Fwd Eq | C Plucker, Fwd Ne => Plucker_cmp self other
   | C Plucker, Fwd Or => Plucker_or self other
   | C Plucker, Fwd Xor => Plucker_xor self other
   | B SpatialVector, Fwd Add | B SpatialVector, Fwd Sub => SpatialVector_addsub self other
@@ -430,9 +414,9 @@ Definition body0 (k : pyc) (m : meth) (self : cls) (other : kind) : mres :=
   | C DualQuaternion, Fwd Add => DualQuaternion_addsub Add self other
   | C DualQuaternion, Fwd Sub => DualQuaternion_addsub Sub self other
   | C DualQuaternion, Fwd Mul => DualQuaternion_mul self other
-  | B UserList, Fwd Add => UserList_add self other
-  | B UserList, Rev Add => UserList_radd self other
-  | B UserList, Fwd Mul | B UserList, Rev Mul => UserList_mul self other
+  | B SMUserList, Fwd Add | B SMUserList, Rev Add | B SMUserList, Fwd Mul | B SMUserList, Rev Mul => SMUserList_arith self other
+  | B SMUserList, Fwd Eq => SMUserList_eq self other
+  | B SMUserList, Fwd Ne => SMUserList_ne self other
   | B UserList, Fwd Eq => UserList_eq self other
   | B PyObject, Fwd Eq => NotImpl
   | _, _ => Out Unmodelled
@@ -447,8 +431,6 @@ Definition body (k : pyc) (m : meth) (self : cls) (other : kind) : mres :=
   | B SMPose, Rev Sub => match call0 (owner self (Fwd Sub)) (Fwd Sub) self other with                            (* :1255 *)
                          | Out o => Out (neg_out o) | NotImpl => Out Unmodelled end
   | C SpatialInertia, Rev Mul => call0 (owner self (Fwd Mul)) (Fwd Mul) self other                               (* spatialvector.py:627 *)
-  | C Plucker, Fwd Ne => match call0 (owner self (Fwd Eq)) (Fwd Eq) self other with                              (* geom3d.py:555 *)
-                         | Out (Value RBool p) => Out (Value RBool p) | Out Raise => Out Raise | _ => Out Unmodelled end
   | B PyObject, Fwd Ne => invert_truth (call0 (owner self (Fwd Eq)) (Fwd Eq) self other)
   | _, _ => body0 k m self other
   end.
@@ -613,70 +595,6 @@ Definition conforms (s : spec) (o : outcome) : bool :=
   | Free => negb (outcome_beq o Unmodelled)
   end.
 
-(* ================================================================== known root causes (cell predicates) *)
-Inductive cause :=
-  | Op2FallThrough        (* SMPose._op2 has no else: pose +/- non-matching operand returns None *)
-  | IsinstanceAsym        (* SMPose.__mul__/__truediv__ test isinstance(left, right.__class__): SE3 op SO3, SE2 op SO2 give the identity *)
-  | UserListAdd           (* Twist2/Twist3/Plucker inherit UserList.__add__: list concatenation *)
-  | UserListRepeat        (* spatial vectors inherit UserList.__mul__: list repetition by an int (list * ndarray for an array) *)
-  | DQMulNone             (* DualQuaternion.__mul__ has no else: returns None *)
-  | UserListEq            (* spatial vectors / SpatialInertia inherit UserList.__eq__: bool(array == array) raises *)
-  | PluckerEqMulti.       (* Plucker.__eq__/__ne__ compare the first elements only: one bool for a sequence *)
-Scheme Equality for cause.
-
-Definition root_cause (n : nat) (o : op) (l r : kind) : option cause :=
-  match o, l, r with
-  | Add, Obj a, _ | Sub, Obj a, _ =>
-      if is_pose a then
-        match r with
-        | Obj b => if isinst b (C a) then None else Some Op2FallThrough
-        | KArr s => if shape_beq s (eshape H a) then None else Some Op2FallThrough
-        | _ => None
-        end
-      else if op_beq o Add && opt_pyc_beq (owner a (Fwd Add)) (Some (B UserList)) then
-        match r with
-        | Obj b => if is_seq b && shape_beq (eshape H b) (eshape H a) then Some UserListAdd else None
-        | KArr (_ :: t) => if shape_beq t (eshape H a) then Some UserListAdd else None
-        | _ => None
-        end
-      else None
-  | Mul, Obj a, Obj b | Div, Obj a, Obj b =>
-      if is_pose a && strict_subclass a b then Some IsinstanceAsym
-      else if op_beq o Mul && is_dq a then
-        (if is_dq b then None else Some DQMulNone)
-      else None
-  | Mul, Obj a, KInt => if is_dq a then Some DQMulNone else if opt_pyc_beq (owner a (Fwd Mul)) (Some (B UserList)) then Some UserListRepeat else None
-  | Mul, Obj a, KFloat => if is_dq a then Some DQMulNone else None
-  | Mul, Obj a, KArr s =>
-      if is_dq a then (if cls_beq a UnitDualQuaternion && isvector s 3 then None else Some DQMulNone)
-      else if opt_pyc_beq (owner a (Fwd Mul)) (Some (B UserList)) && isinst a (B SpatialVector) && bcast (n :: eshape H a) s
-              && (let t := bshape (n :: eshape H a) s in isvector t 6 || match t with [6; _] => true | _ => false end)
-           then Some UserListRepeat       (* list * ndarray is a NumPy product that the constructor accepts *)
-           else None
-  | Eq, Obj a, Obj b | Ne, Obj a, Obj b =>
-      if cls_beq a b then
-        (if opt_pyc_beq (owner a (Fwd Eq)) (Some (B UserList)) then Some UserListEq
-         else if cls_beq a Plucker && negb (n =? 1) then Some PluckerEqMulti
-         else None)
-      else None
-  | _, _, _ => None
-  end.
-
-(* the outcome each root cause produces *)
-Definition cause_outcome (c : cause) (n : nat) (o : op) (l r : kind) : outcome :=
-  match c, l with
-  | Op2FallThrough, _ => ReturnsNone
-  | IsinstanceAsym, Obj a => Value (RObj a) DefaultIdentity
-  | UserListAdd, Obj a =>
-      Value (RObj a) (match r with Obj b => if cls_beq a b then ListOp else ForeignElements | _ => ForeignElements end)
-  | UserListRepeat, Obj a =>
-      match r with KArr s => SpatialVector_ctor_array a (bshape (n :: eshape H a) s) | _ => Value (RObj a) ListOp end
-  | DQMulNone, _ => ReturnsNone
-  | UserListEq, _ => Raise
-  | PluckerEqMulti, _ => Value RBool Computed
-  | _, _ => Unmodelled
-  end.
-
 (* ================================================================== the finite table *)
 Definition nonobj_kinds : list kind := [KFloat; KInt; KArr [3; 3]; KArr [4; 4]; KArr [3]].
 Definition all_kinds : list kind := map Obj all_cls ++ nonobj_kinds.
@@ -697,44 +615,44 @@ Definition ext_cells : list cell := cells_for [1; 2; 3; 4] ext_kinds.
 
 Definition model (c : cell) : outcome := binop (c_n c) (c_op c) (c_l c) (c_r c).
 Definition spec_of (c : cell) : spec := documented (c_n c) (c_op c) (c_l c) (c_r c).
-Definition cause_of (c : cell) : option cause := root_cause (c_n c) (c_op c) (c_l c) (c_r c).
 Definition cell_ok (c : cell) : bool := conforms (spec_of c) (model c).
 (* one line per cell, printed by the check and compared with the implementation *)
-Definition report_for (cells : list cell) : list (nat * op * kind * kind * outcome * spec * option cause) :=
-  map (fun c => (c_n c, c_op c, c_l c, c_r c, model c, spec_of c, cause_of c)) cells.
+Definition report_for (cells : list cell) : list (nat * op * kind * kind * outcome * spec) :=
+  map (fun c => (c_n c, c_op c, c_l c, c_r c, model c, spec_of c)) cells.
 Definition report := report_for all_cells.
 
 End Model.
 
-(* ================================================================== generic lemmas (any hierarchy) *)
+(* ================================================================== generic lemmas (any hierarchy, any length) *)
 
-(* The mechanism behind SE3*SO3 = identity: whenever the left class is a proper subclass of the right operand's class,
-   SMPose.__mul__ takes the composition branch, the shared helper _op2 tests the OPPOSITE direction, finds no branch,
-   returns None, and the constructor turns None into the identity.  Holds for every hierarchy, every length. *)
-Lemma SMPose_mul_strict_subclass_identity :
-  forall (H : hier) (n : nat) (l r : cls),
-    isinst H l (C r) = true -> isinst H r (C l) = false ->
-    SMPose_mul H n l (Obj r) = Out (Value (RObj l) DefaultIdentity).
-Proof. intros H n l r Hlr Hrl. unfold SMPose_mul, op2. rewrite Hlr, Hrl. reflexivity. Qed.
+(* pose * pose and pose / pose are defined for operands of the same class only: with a right operand of any other class
+   (in particular a superclass instance: SE3 * SO3) __mul__ declines and __truediv__ raises *)
+Lemma SMPose_mul_other_class_declines :
+  forall (H : hier) (n : nat) (l r : cls), cls_beq l r = false -> SMPose_mul H n l (Obj r) = NotImpl.
+Proof. intros H n l r Hlr. unfold SMPose_mul. rewrite Hlr. reflexivity. Qed.
+Lemma SMPose_div_other_class_raises :
+  forall (H : hier) (n : nat) (l r : cls), cls_beq l r = false -> SMPose_div H n l (Obj r) = Out Raise.
+Proof. intros H n l r Hlr. unfold SMPose_div. rewrite Hlr. reflexivity. Qed.
 
-Lemma SMPose_div_strict_subclass_identity :
+(* the shared helper raises for every right operand that is an object of an unrelated class: + and - never return None *)
+Lemma SMPose_addsub_unrelated_raises :
   forall (H : hier) (n : nat) (l r : cls),
-    isinst H l (C r) = true -> isinst H r (C l) = false ->
-    SMPose_div H n l (Obj r) = Out (Value (RObj l) DefaultIdentity).
-Proof. intros H n l r Hlr Hrl. unfold SMPose_div, op2. rewrite Hlr, Hrl. reflexivity. Qed.
-
-(* the fall-through of the helper: + and - return None for every right operand that is an object of an unrelated class *)
-Lemma SMPose_addsub_unrelated_none :
-  forall (H : hier) (n : nat) (l r : cls),
-    isinst H r (C l) = false -> SMPose_addsub H n l (Obj r) = Out ReturnsNone.
+    isinst H r (C l) = false -> SMPose_addsub H n l (Obj r) = Out Raise.
 Proof. intros H n l r Hrl. unfold SMPose_addsub, op2. rewrite Hrl. reflexivity. Qed.
 
-(* and in the other direction (left a proper SUPERclass) the helper does find its branch and NumPy is asked to combine
-   matrices of the two classes' shapes *)
-Lemma SMPose_addsub_superclass :
+(* and when the right operand is an instance of a proper subclass with elements of another shape, NumPy refuses to combine them *)
+Lemma SMPose_addsub_subclass_instance :
   forall (H : hier) (n : nat) (l r : cls),
     isinst H r (C l) = true -> bcast (eshape H l) (eshape H r) = false -> SMPose_addsub H n l (Obj r) = Out Raise.
 Proof. intros H n l r Hrl Hb. unfold SMPose_addsub, op2, np_ok. rewrite Hrl, Hb. reflexivity. Qed.
+
+(* the helper never yields None, whatever the operands *)
+Lemma SMPose_addsub_never_none :
+  forall (H : hier) (n : nat) (l : cls) (r : kind), SMPose_addsub H n l r <> Out ReturnsNone.
+Proof.
+  intros H n l r. unfold SMPose_addsub, op2.
+  destruct r as [rc | | | s]; repeat match goal with |- context [if ?b then _ else _] => destruct b end; simpl; discriminate.
+Qed.
 
 (* protocol: with a number on the left the outcome is whatever the reflected method of the right class says, TypeError if it
    declines or does not exist *)
@@ -764,7 +682,6 @@ Lemma table_forall : forall (P : cell -> bool) (cells : list cell),
   forallb P cells = true -> forall c, In c cells -> P c = true.
 Proof. intros P cells Hall c Hin. exact (proj1 (forallb_forall P cells) Hall c Hin). Qed.
 
-Definition is_none {A} (x : option A) : bool := match x with None => true | Some _ => false end.
 Definition is_computed_or_raise (o : outcome) : bool :=
   match o with Raise => true | Value _ Computed => true | _ => false end.
 
